@@ -286,6 +286,43 @@ func c17families() []c17family {
 				return root.Parse(ctx, lrc, pos)
 			}), s
 		}},
+		{"nested brackets with two closers V -> ( Trim(V) ) | ( Trim(V) ] | a (trimming wrapper around the memoized reference)", true, func(r *rand.Rand, n int, tick func(*parsley.Context)) (parsley.Parser, string) {
+			// library parts only: the whitespace is skipped by a text.Trim / RightTrim / LeftTrim around the REFERENCE to the
+			// memoized nonterminal (not around the terminals), two alternatives share the prefix "( V", the input has
+			// whitespace after every value: the cached result is asked for twice per position and trimmed each time
+			var v parser.Func
+			wraps := []func(p parsley.Parser) parsley.Parser{
+				func(p parsley.Parser) parsley.Parser { return text.Trim(p) },
+				func(p parsley.Parser) parsley.Parser { return text.RightTrim(p, text.WsSpacesNl) },
+				func(p parsley.Parser) parsley.Parser {
+					return text.RightTrim(text.LeftTrim(p, text.WsSpaces), text.WsSpaces)
+				},
+			}
+			wi := r.Intn(3)
+			wrap := wraps[wi]
+			open := terminal.Rune('(')
+			if r.Intn(2) == 0 || wi == 1 { // (a wrapper without left trimming needs the opener to take the whitespace)
+				open = text.RightTrim(terminal.Rune('('), text.WsSpacesNl) // the opener swallows the whitespace behind it
+			}
+			inner := combinator.Any(
+				combinator.SeqOf(open, wrap(&v), terminal.Rune(')')),
+				combinator.SeqOf(open, wrap(&v), terminal.Rune(']')),
+				terminal.Rune('a'),
+			)
+			v = combinator.Memoize(parser.Func(func(ctx *parsley.Context, lrc data.IntMap, pos parsley.Pos) (parsley.Node, data.IntSet, parsley.Error) {
+				tick(ctx)
+				return inner.Parse(ctx, lrc, pos)
+			}))
+			k := (n - 1) / 4
+			s := rep("( ", k) + "a" + rep(" ]", k)
+			if r.Intn(2) == 0 {
+				s = rep("( ", k) + "a" + rep(" )", k-k/2) + rep(" ]", k/2)
+			}
+			root := combinator.Sentence(&v)
+			return parser.Func(func(ctx *parsley.Context, lrc data.IntMap, pos parsley.Pos) (parsley.Node, data.IntSet, parsley.Error) {
+				return root.Parse(ctx, lrc, pos)
+			}), s
+		}},
 		{"arithmetic expr/term/factor", true, func(r *rand.Rand, n int, tick func(*parsley.Context)) (parsley.Parser, string) {
 			a := newArith()
 			ops := "+*-/"
@@ -524,7 +561,7 @@ func init() {
 		Finish: func(tier string, a *run.Acc, cov map[string]any) string {
 			cov["rule"] = "case = (family, variant with randomised terminals/shape, n) for n in 8..256 (512 thorough): Context.CallCount of a successful Sentence parse of the length-n and length-2n inputs; " +
 				"the 2n run executes under a logical limit of 16 x calls(n) enforced by a probe below Memoize. Families: P -> P b | a, mutual pairs and triples, hidden left recursion through Optional/Many/Empty with the prefix absent, " +
-				"nested brackets, right recursion, separated lists (SepBy and left-recursive), expr/term/factor arithmetic; all unambiguous by construction. Hidden left recursion with the prefix present is ambiguous: run and reported, not judged. " +
+				"nested brackets (also with two closers and a trimming wrapper around the memoized reference), right recursion, separated lists (SepBy and left-recursive), expr/term/factor arithmetic; all unambiguous by construction. Hidden left recursion with the prefix present is ambiguous: run and reported, not judged. " +
 				"Counts must be identical over three runs with freshly constructed grammars and between two replicas executed in different worker processes. " +
 				"non-trivial = a judged pair within the bound; distinct = (family, variant, n)"
 			if k := a.Counters["inconclusive:absolute call budget of 3*10^7 reached"]; k > 0 {
